@@ -40,10 +40,12 @@ FULL STATEMENT (false on the pinned code, see the negative witnesses below):
 Proved for all circuits, of any size and length, whose operations satisfy the decidable predicate
 `opOk`: gates that are 1-qubit boxes (H Y S S† T T† V V† RX RY RZ U1 U2 U3 …), X, Z, Swap, I, any
 controlled nesting C<…> of the former four with every control outside the span of its targets and
-distinct operands (CX … CCZ), and Kron / Composite / Loop of all these to any depth; measure,
-measure_all, reset, barrier, peek.  Missing: conditional gates and reset_all (their emitters are
-covered by the same `Wrote` calculus; not finished), multi-qubit block gates (trait default drawing),
-gates under a control that are Kron / Composite / Loop / I (genuinely wrong, see known findings).
+distinct operands (CX … CCZ), and Kron / Composite / Loop of all these to any depth; conditional
+gates whose gate is such a one-column gate (`condOk`: distinct qubits, distinct condition bits);
+measure, measure_all, reset, reset_all, barrier, peek.
+Excluded: multi-qubit block gates (the trait's default drawing; modelled and compared, not proved);
+Kron / Composite / Loop / I under a quantum or classical control (genuinely wrong or degenerate on
+the pinned code, see the negative witnesses and the known findings).
 -/
 /-- **connectors_in_grid_on_partner** (partial): in the printed grid every control line, `\qwx`
 wire and measurement line ends inside the grid on a partner symbol. -/
@@ -98,10 +100,11 @@ example : symText (.ctrl (-2)) = "\\ctrl{-2}" ∧
 def cxGate : Gate := .c .x
 def ccxGate : Gate := .c (.c .x)
 
-/-- A circuit inside the proved class with controls, a swap, a composite, a loop, measurements and a barrier. -/
+/-- A circuit inside the proved class with controls, a swap, a composite, a loop, a conditional Toffoli,
+measurements, resets and a barrier. -/
 def sample : Circ := ⟨3, 2, [.gate (.box "H" 1) [0], .gate ccxGate [0, 2, 1], .gate .swap [2, 0],
   .gate (.comp "c" 2 (.cons (.box "H" 1) [1] (.cons cxGate [0, 1] .nil))) [1, 2],
-  .gate (.loop 3 (.comp "b" 1 (.cons .z [0] .nil))) [2], .measure 1 0 .X, .barrier [0, 1], .reset 2, .measureAll [1, 0, 1] .Z]⟩
+  .gate (.loop 3 (.comp "b" 1 (.cons .z [0] .nil))) [2], .measure 1 0 .X, .barrier [0, 1], .reset 2, .cond [1, 0] 2 ccxGate [2, 0, 1], .resetAll, .measureAll [1, 0, 1] .Z]⟩
 
 example : (∀ op ∈ sample.ops, opOk op = true) ∧ (circuitLatex sample matches .ok _) := by decide
 
